@@ -261,11 +261,15 @@ func (c *Check) closeFacts(fs FactSet) FactSet {
 		}
 		m := argMap(g, call)
 		for _, sf := range c.P.SummaryOf(g).SuccessFacts {
-			nf := sf.Subst(m)
-			if !out.Has(nf) {
-				out.Add(nf)
-				depth[nf.String()] = depth[f.String()] + 1
-				work = append(work, nf)
+			for _, nf := range sf.SubstAll(m) {
+				if nf.T.IsAt("#true") || nf.T.IsAt("#false") {
+					continue
+				}
+				if !out.Has(nf) {
+					out.Add(nf)
+					depth[nf.String()] = depth[f.String()] + 1
+					work = append(work, nf)
+				}
 			}
 		}
 	}
